@@ -406,3 +406,34 @@ Theorem C11_finding_witness_in_family :
   exists b c argv, help_family 0 b c = true /\ parse_kind (build_op c) argv <> parse_kind c argv.
 Proof. exact finding_witness_in_family. Qed.
 Print Assumptions C11_finding_witness_in_family.
+
+(** ---- fourth pass (3): the [mid] part of usage_name modelled: [mid_string sty mem p] =
+    [Usage::get_required_usage_from(&[], None, true)] of the parent [p] (requirement graph, unrolling, required
+    groups with their members, required options, required positionals by index), each piece followed by a space,
+    unless SubcommandsNegateReqs / ArgsNegateSubcommands; [sty] / [mem] = the per-argument texts
+    ([Arg::stylized(Some(true))], member text of [format_group]). ---- *)
+
+(** it is rendered from the parent's own arguments, groups and two settings: not from its subcommands, names, marks *)
+Theorem C11_mid_reads_own_definition : forall sty mem p p',
+  c_args p' = c_args p -> c_groups p' = c_groups p ->
+  is_set s_subs_negate_reqs p' = is_set s_subs_negate_reqs p ->
+  is_set s_args_negate_subs p' = is_set s_args_negate_subs p ->
+  mid_string sty mem p' = mid_string sty mem p.
+Proof. exact own_mid_string. Qed.
+Print Assumptions C11_mid_reads_own_definition.
+
+(** version line and the REAL usage head (parent's bin name, its required arguments, the subcommand's names) of
+    every visited level, and the error: equal on reused (any history with failing / mutating parses), cloned, fresh *)
+Theorem C11_history_messages_usage_name : forall sty mem h b c argv,
+  good_name b = true -> xhist_ok b c h = true ->
+  argv_under b (xrun c h) argv = true -> argv_under b c argv = true ->
+  parse_lines (mid_string sty mem) (xrun c h) argv = parse_lines (mid_string sty mem) c argv
+  /\ err_of (fst (fst (parse_mut (xrun c h) argv))) = err_of (fst (fst (parse_mut c argv))).
+Proof. exact history_messages_real. Qed.
+Print Assumptions C11_history_messages_usage_name.
+
+(** and that head is [bin_name(parent) ++ mid_string(parent) ++ sc_names(level)] *)
+Theorem C11_usage_name_is_real : forall sty mem p k,
+  usage_name_at (mid_string sty mem) p k = real_usage_name sty mem p k.
+Proof. exact usage_name_at_real. Qed.
+Print Assumptions C11_usage_name_is_real.
